@@ -261,8 +261,13 @@ def _():
 
 @op("stream_order", group="strord")
 def _():
-    return (lambda rng, w: {"type": rng.choice(["strahler", "classic"]), "mask": rng.random() < 0.4},
-            lambda W, a: W.flw.stream_order(type=a["type"], mask=W.arr("mask", bool) if a["mask"] else None))
+    def mask(W, a):
+        if a.get("mask_upa"):   # downstream-closed stream mask: cells with at least k upstream cells
+            return W.arr(stream_mask(W.w, "upa%d" % a["mask_upa"]), bool)
+        return W.arr("mask", bool) if a["mask"] else None
+    return (lambda rng, w: {"type": rng.choice(["strahler", "classic"]), "mask": rng.random() < 0.4,
+                            "mask_upa": rng.choice([None, None, None, 2, 3, 5, 8])},
+            lambda W, a: W.flw.stream_order(type=a["type"], mask=mask(W, a)))
 
 
 @op("upstream_area", group="accu")
@@ -280,7 +285,39 @@ def _():
                                          nodata=a["nodata"], direction=a["direction"]))
 
 
-@op("path", group="trace")
+def _dtype_free(c):
+    """canonical form with the integer dtype tags removed (index arrays already have their missing value at -1)"""
+    if isinstance(c, list):
+        if len(c) == 4 and c[0] == "arr":
+            return ["arr", "int" if c[1] == "idx" or c[1].startswith(("int", "uint")) else c[1], c[2], c[3]]
+        if len(c) == 2 and c[0] == "idx":
+            return c[1]
+        return [_dtype_free(v) for v in c]
+    return c
+
+
+def _same_on_index_dtype(W, idt, fn, what):
+    """result of fn(W) on the world's own object; the same call is then made on an object of the same class holding
+    the same network (same cache flag, same fields) with index dtype(s) `idt` - the missing value is the dtype's own
+    (-1 / 2^32-1 / 2^64-1) - and must give the same result modulo the integer dtype. Exceptions of the second call
+    propagate like those of the first (C13 judges them, the guard of C13 covers both calls)."""
+    import copy
+    out = fn(W)
+    c1 = _dtype_free(canon(out, W))
+    for dt in ([idt] if isinstance(idt, str) else idt):
+        V = copy.copy(W)
+        V.dtype = np.dtype(dt).type
+        V.flw = type(W.flw)(ds_to_np(W.w["ds"], V.dtype), cache=W.w["cache"]) if W.w["cls"] == "vector" else \
+            type(W.flw)(ds_to_np(W.w["ds"], V.dtype), W.shape, W.flw.ftype, transform=W.flw.transform, latlon=W.flw.latlon, cache=W.w["cache"])
+        V.mv = int(V.flw._mv)
+        c2 = _dtype_free(canon(fn(V), V))
+        if c1 != c2:
+            raise OracleMismatch(f"{what}: {W.w['cls']} network with {np.dtype(dt).name} indices returns {str(c2)[:200]}, the same "
+                                 f"network with {np.dtype(W.dtype).name} indices {str(c1)[:200]}")
+    return out
+
+
+@op("path", group="trace", variants=2)
 def _():
     def gen(rng, w):
         a = {"idxs": [rng.choice(w["valid"]) for _ in range(rng.randint(1, 3))], "direction": rng.choice(["up", "down"]),
@@ -288,9 +325,19 @@ def _():
         if w["cls"] == "raster":
             a["unit"] = rng.choice(["cell", "m"])
             a["xy"] = rng.random() < 0.3
+        else:
+            # Flwdir.path is the base-class method FlwdirRaster overrides: only vector worlds reach it, and C13 builds
+            # every world with int32 indices. The same call is repeated on a base-class object holding the same
+            # network with each of the four index dtypes (both directions; `_same_on_index_dtype`).
+            a["idx_dtypes"] = list(IDX_DTYPES)
         return a
 
     def call(W, a):
+        if W.w["cls"] == "vector" and a.get("idx_dtypes"):
+            return _same_on_index_dtype(W, a["idx_dtypes"], lambda V: _path_call(V, a), f"path({a})")
+        return _path_call(W, a)
+
+    def _path_call(W, a):
         kw = dict(mask=W.arr("mask", bool) if a["mask"] else None, max_length=a["max_length"], direction=a["direction"])
         if W.w["cls"] == "raster":
             kw["unit"] = a["unit"]
@@ -398,6 +445,23 @@ def stream_mask(w, kind):
         thr = int(kind[3:])
         return [c >= thr for c in upcount(w["ds"])]
     return [kind == "all"] * n
+
+
+def upa_threshold(rng, w, qs=(0.3, 0.5, 0.7, 0.85, 0.95)):
+    """a threshold that BITES on this world: the accumulated `area_distinct` (what World.uparea_distinct returns, up to
+    rounding) of the cell at a random quantile of the valid cells, plus a little (thresholds like upa_min = 2 leave
+    every confluence of a 4 .. 56 cell raster above the threshold when the areas are accumulated distinct numbers)"""
+    ds, n = w["ds"], len(w["ds"])
+    acc = [0.0] * n
+    for i in w["valid"]:
+        j, steps = i, 0
+        acc[j] += w["area_distinct"][i]
+        while ds[j] != j and ds[j] != n and steps <= n:
+            j, steps = ds[j], steps + 1
+            acc[j] += w["area_distinct"][i]
+    vals = sorted(acc[i] for i in w["valid"])
+    q = rng.choice(qs)
+    return q, round(vals[min(int(q * len(vals)), len(vals) - 1)] + 0.0005, 4)
 
 
 @op("add_pits", group="mutate", variants=2)
@@ -728,14 +792,23 @@ def _():
 
 @op("subbasins_streamorder", classes=R, group="basins")
 def _():
-    return (lambda rng, w: {"min_sto": rng.choice([-2, -1, 1, 2]), "mask": rng.random() < 0.3},
-            lambda W, a: W.flw.subbasins_streamorder(min_sto=a["min_sto"], mask=~W.arr("mask", bool) if a["mask"] else None))
+    def mask(W, a):
+        if a.get("mask_upa"):
+            return W.arr(stream_mask(W.w, "upa%d" % a["mask_upa"]), bool)
+        return ~W.arr("mask", bool) if a["mask"] else None
+    return (lambda rng, w: {"min_sto": rng.choice([-2, -1, 1, 2, 3, -3]), "mask": rng.random() < 0.3,
+                            "mask_upa": rng.choice([None, None, None, 2, 3, 5])},
+            lambda W, a: W.flw.subbasins_streamorder(min_sto=a["min_sto"], mask=mask(W, a)))
 
 
 @op("subbasins_area", classes=R, group="basins")
 def _():
-    return (lambda rng, w: {"area_min": rng.choice([1, 3, 10])},
-            lambda W, a: W.flw.subbasins_area(a["area_min"], uparea=W.uparea_distinct()))
+    def gen(rng, w):
+        if rng.random() < 0.5:
+            q, thr = upa_threshold(rng, w)
+            return {"area_min": thr, "area_q": q}
+        return {"area_min": rng.choice([1, 3, 10])}
+    return gen, lambda W, a: W.flw.subbasins_area(a["area_min"], uparea=W.uparea_distinct())
 
 
 @op("subbasins_pfafstetter", classes=R, group="basins")
@@ -748,7 +821,12 @@ def _():
                 nin[d] += 1
         # two tributaries entering the main stem at the SAME cell have equal sort keys (uparea of their common
         # downstream cell): their numbering is a documented-free choice (np.argsort vs Numba's argsort differ)
-        return {"depth": rng.choice([1, 2]), "upa_min": rng.choice([0.0, 2.0, None]), "ambiguous": max(nin) >= 3}
+        # depth up to 9: the deepest level whose codes fit the documented int32 result (finding F18b: the branch labels
+        # pfaf0 + (i+1) * 10**depth wrapped in int32 from the third pit on at depth 9 - silently under the JIT)
+        a = {"depth": rng.choice([1, 2, 1, 2, 3, 5, 8, 9]), "upa_min": rng.choice([0.0, 2.0, None]), "ambiguous": max(nin) >= 3}
+        if rng.random() < 0.5:
+            a["upa_q"], a["upa_min"] = upa_threshold(rng, w)
+        return a
 
     def call(W, a):
         if a["ambiguous"]:
@@ -920,7 +998,12 @@ def _():
 
 @op("hand_floodplains", classes=R, group="dem")
 def _():
-    return (lambda rng, w: {"upa_min": rng.choice([2, 5]), "b": rng.choice([0.3, 0.5, 1.0])},
+    def gen(rng, w):
+        a = {"upa_min": rng.choice([2, 5]), "b": rng.choice([0.3, 0.5, 1.0])}
+        if rng.random() < 0.5:
+            a["upa_q"], a["upa_min"] = upa_threshold(rng, w)
+        return a
+    return (gen,
             lambda W, a: (W.flw.hand(W.arr("mask", bool), W.arr("elevf", np.float32)),
                           W.flw.floodplains(W.arr("elevf", np.float32), uparea=W.uparea_distinct(), upa_min=a["upa_min"], b=a["b"])))
 
@@ -1023,7 +1106,7 @@ def _():
 # ---------------------------------------------------------------------------------------------
 MUTATING_OPS = {"order_cells", "add_pits", "repair_loops", "set_transform", "derived_objects"}
 _HEAVY = {"upscale", "ucat", "subgrid_riv", "from_dem", "fill_depressions_idxs_pit", "slope", "spread2d", "regions",
-          "gis_utils", "conversion", "from_array", "k_path_snap", "k_distance_slope_spread", "k_subgrid_slope",
+          "gis_utils", "conversion", "from_array", "k_path_snap", "k_distance_slope_spread", "k_subgrid_slope", "k_subgrid_stats",
           "subbasins_pfafstetter", "dem_dig_d4", "wide_raster_to_array"}   # (the last one does not touch the object)
 
 
@@ -1175,6 +1258,8 @@ def error_cases(W):
             ("from_array(invalid data for explicit ftype)", lambda: pyflwdir.from_array(np.full(W.shape, 3, dtype=np.uint8), ftype="d8"), "ValueError"),
             ("region_bounds(1-D regions)", lambda: __import__("pyflwdir").regions.region_bounds(np.ones(4, dtype=np.int32), W.transform), "ValueError"),
             ("region_slices(1-D)", lambda: __import__("pyflwdir").regions.region_slices(np.ones(4, dtype=np.int32)), "ValueError"),
+            ("features(no xs/ys, no transform)", lambda: g.features([np.array([0, 1])], xs=None, ys=None), "ValueError"),
+            ("core_nextxy.from_array(2-D array)", lambda: __import__("pyflwdir").core_nextxy.from_array(np.zeros((3, 3), dtype=np.int32)), "TypeError"),
             ("region_dissolve(no labels)", lambda: __import__("pyflwdir").regions.region_dissolve(f.basins().astype(np.int32)), "ValueError"),
         ]
         cases += border_cases(W)
@@ -1202,18 +1287,71 @@ def _():
                             "max_length": rng.choice([None, 1.0, 4.0]), "mask": rng.random() < 0.5, "real": rng.random() < 0.6}, call)
 
 
-@op("k_distance_slope_spread", classes=R, group="kernel")
+# Elevation rasters come as float32 / float64 and as NARROW integers (int16 SRTM / MERIT tiles and bathymetry, uint16 /
+# uint8 / int8 relative heights). NumPy keeps scalar arithmetic on elements of such an array in the array's dtype, Numba
+# promotes to int64: small integer expressions of a kernel (sums / differences of a few neighbours) can wrap around
+# interpreted and not compiled. The DEMs drawn here have a relief of 30 units around a base level at 0, a quarter or a
+# half of the dtype's range (positive and negative; unsigned: of the positive range): sums of 2 .. 4 elevations cross the
+# dtype's limits. `wide`: the relief spans most of the dtype's range (differences of window sums leave the range too).
+# (Found with this class: dem.slope kept its 3 x 3 window in the DEM's dtype - uint8 [[3, 5], [3, 5]] gave 44.5
+# interpreted, 0.79 compiled; fixed in /repo 8b2e331.)
+_DEM_DTS = ["float32", "float32", "float64", "int32", "int16", "int16", "int8", "int8", "uint8", "uint16"]
+_DEM_LEVELS = ["low", "quarter", "quarter", "-quarter", "-quarter", "half", "-half"]
+
+
+def dem_args(rng):
+    dt = rng.choice(_DEM_DTS)
+    a = {"dem": dt, "level": "low" if dt.startswith("float") else rng.choice(_DEM_LEVELS)}
+    if not dt.startswith("float") and rng.random() < 0.25:
+        a["wide"] = True
+    return a
+
+
+def narrow_dem(W, a):
+    """the world's elevation field as a DEM of dtype a['dem'] around the base level a['level'] of that dtype"""
+    dt = np.dtype(a.get("dem", "float32"))
+    if dt.kind == "f":
+        return W.arr("elevf", dt)
+    info = np.iinfo(dt)
+    lv = a.get("level", "low")
+    base = {"low": 15, "quarter": (info.max + 1) // 4, "-quarter": info.min // 4, "half": (info.max + 1) // 2,
+            "-half": info.min // 2}[lv]
+    if info.min == 0 and lv.startswith("-"):   # unsigned: the levels of the positive range, approached from below
+        base = {"-quarter": (info.max + 1) // 4 - 16, "-half": (info.max + 1) // 2 - 16}[lv]
+    k = max(info.max // 40, 1) if a.get("wide") else 1
+    vals = [min(max(base + (e - 15) * k, info.min), info.max) for e in W.w["elev"]]
+    return W.arr(vals, dt)
+
+
+def features(t):
+    """input classes of a task (op, args, world) for the feature histogram of the worker based checks
+    (`for k in catalogue.features(t): ctx.count("feature:" + k)`)"""
+    a, out = t.get("args", {}), []
+    if "dem" in a:
+        out.append("dem-dtype:" + a["dem"])
+        if not a["dem"].startswith("float"):
+            out.append("dem-level:" + a.get("level", "low") + (":wide-relief" if a.get("wide") else ""))
+    if "data_dt" in a:
+        out.append("segment-data-dtype:" + a["data_dt"])
+    if a.get("idx_dtypes"):
+        out.append(f"base-class-{t.get('op')}-on-all-index-dtypes:{a.get('direction')}")
+    if "upa_q" in a or "area_q" in a:
+        out.append("threshold-from-the-world's-own-upstream-areas")
+    return out
+
+
+@op("k_distance_slope_spread", classes=R, group="kernel", variants=3)
 def _():
     def call(W, a):
         from pyflwdir import gis_utils as g, dem, streams
         t = _t6(W)
         out = [g.distance(0, W.n - 1, W.shape[1], W.w["latlon"], t),
-               dem.slope(W.arr("elevf", np.float32), -9999.0, W.w["latlon"], t),
+               dem.slope(narrow_dem(W, a), -9999.0, W.w["latlon"], t),
                g.spread2d(np.where(W.arr("mask", bool), 1, 0).astype(np.int32), None, 0, None, W.w["latlon"], t),
                streams.upstream_area(W.flw.idxs_ds, W.flw.idxs_seq, W.shape[1], W.w["latlon"], t),
                streams.stream_distance(W.flw.idxs_ds, W.flw.idxs_seq, W.shape[1], None, True, W.w["latlon"], t)]
         return tuple(out)
-    return _noargs, call
+    return (lambda rng, w: dem_args(rng)), call
 
 
 @op("k_subgrid_slope", classes=R, group="kernel", variants=2)
@@ -1233,6 +1371,36 @@ def _():
         return s1, s2
     return (lambda rng, w: {"s": rng.choice([2, 3]), "cell": rng.choice([1.0, 30.0, 92.5, 1000.0]), "offset": rng.choice([0.0, 0.0, 1.5e3, 2.5e5, 1.2e6]),
                             "direction": rng.choice(["up", "down"]), "lstsq": rng.random() < 0.7, "length": rng.choice([2, 4, 100])}, call)
+
+
+@op("k_subgrid_stats", classes=R, group="kernel", variants=3)
+def _():
+    def call(W, a):
+        # the segment statistics behind subgrid_rivavg / subgrid_rivmed on maps of the dtypes rasters come in (the
+        # public methods hand the user's map through unchanged; they cannot be compiled next to subgrid_rivlen with
+        # affine 3, F07). The results carry their dtype (canon strict_dtype): it has to be the same in both modes.
+        # (Found with float64 data x float32 weights: arithmetics._average summed the weights in float32 when
+        # interpreted, in float64 when compiled; fixed in /repo 888d3fc.)
+        from pyflwdir import subgrid
+        f = W.flw
+        up = W.uparea_distinct()
+        outs = np.asarray(f.ucat_outlets(a["s"], uparea=up)).ravel() if a["outs"] else np.arange(W.n, dtype=np.intp)
+        dt = np.dtype(a["data_dt"])
+        data = np.ascontiguousarray(W.arr("elevf" if dt.kind == "f" else "elev", dt)).ravel()
+        if a["voids"] and dt.kind == "f":   # missing values inside the segments (ignored by both statistics)
+            data = np.where(W.arr("holes", np.int64).ravel() == -9999, dt.type(-9999.0), data)
+        wts = np.ascontiguousarray(W.arr("area_distinct", np.dtype(a["wts_dt"]))).ravel()
+        msk = np.ascontiguousarray(up >= 2).ravel() if a["mask"] else None
+        nxt = f.idxs_ds if a["direction"] == "down" else f.idxs_us_main
+        avg = subgrid.segment_average(outs, nxt, data, wts, msk, -9999.0, f._mv)
+        med = subgrid.segment_median(outs, nxt, data, msk, -9999.0, f._mv)
+        return avg, med
+    def gen(rng, w):
+        a = {"s": rng.choice([1, 2, 3]), "outs": rng.random() < 0.7, "direction": rng.choice(["up", "down"]),
+             "data_dt": rng.choice(["float32", "float32", "float64", "int32", "int64"]),
+             "wts_dt": rng.choice(["float64", "float32"]), "voids": rng.random() < 0.4, "mask": rng.random() < 0.4}
+        return a
+    return gen, call
 
 
 # ---- rivers.py wrappers ---------------------------------------------------------------------------
